@@ -16,8 +16,19 @@ process and overwritten before every use, and most histories contain a twin pair
 different images of exactly the same byte length: other pixel values in uncompressed
 BMP/TIFF, another comment of the same length in PNG/JPEG/GIF) added one after the other
 from the same path, before and after a re-open; part names, rIds, extension, content type, sizes and the final media store are
-compared with the model.
-ORACLE: the property statement itself, evaluated on the saved zip and the live objects
+compared with the model.  The histories also REMOVE: a slide is deleted by the usual recipe (p:sldId removed,
+prs.part.drop_rel(rId); first / last / any slide), an image-bearing shape (picture, placeholder picture, movie,
+OLE frame; also the ones a corpus deck already has) is deleted together with every relationship nothing in the
+slide refers to any more (slide.part.drop_rel) or as an element only, and 40% of the histories contain a
+remove-then-re-add pattern (an image gets several users, all of them are removed, other images are added, the
+first one is used again).  The model keeps every part OBJECT and computes what the package reaches from the
+relationships of the slides at every look-up, so an image whose last user went is unreachable, its number is free
+for the next new part and the image is stored anew when it is added again; after a removal the model answers
+with the names the image relationships still lead to and that is compared as well.
+ORACLE: after every step and after every save + re-open, directly on the implementation: every picture gives back
+exactly the bytes it was added with (deck pictures: the bytes they had), no two parts the package reaches share a
+name, no byte string is held by two reachable image parts, every zip member name is unique; and
+the property statement itself, evaluated on the saved zip and the live objects
 with an independent reading of the image file headers (format by magic bytes, pixel size
 and resolution from PNG IHDR/pHYs, JFIF APP0/SOF, GIF screen descriptor, BMP header, TIFF
 tags): one media member per distinct input, bytes identical, extension and content type of
@@ -51,8 +62,11 @@ TB = [
     "image_content_types, default_content_types, the ImagePart rows of PartFactory.part_type_for by import)",
     "PackUri.idx / PackUri.ext of model/PackUri.v (C19) are reused for partname.idx and partname.ext; dict, sorted, enumerate, "
     "%d formatting and Python truthiness of None/0 are transcribed",
-    "save followed by load is taken to return every reachable part with the same name, bytes and content type (that is C01); "
-    "the class of a loaded part is chosen from its content type (PartFactory), as modelled by reload_part",
+    "save followed by load is taken to return every reachable part with the same name, bytes and content type (that is C01) "
+    "and no other part; the class of a loaded part is chosen from its content type (PartFactory), as modelled by reload_part",
+    "the harness performs the removals itself with the documented calls (p:sldId removed + prs.part.drop_rel; element removed "
+    "+ slide.part.drop_rel for each rId no attribute of the slide in the relationships namespace mentions any more); the model's "
+    "ODropRel is issued exactly for the relationships it dropped",
     "blobs longer than 12000 bytes (corpus images, the bundled EMF icons) travel to the model as a stand-in (first 64 bytes + "
     "length + SHA-256 computed by the harness): the model only compares blobs for equality, reads bytes 40..44 and hands them back",
 ]
@@ -65,10 +79,16 @@ ASSUME = [
     "C15_distinct / C15_bytes assume H separates the blobs involved (SHA-1 collision freedom on the inputs used)",
     "the model store lists reachable parts in the order _find_by_sha1 meets them at load time followed by creation order; "
     "the implementation iterates in depth-first relationship order; the two agree on _find_by_sha1 whenever no two indexed "
-    "parts hold the same bytes (C15_once: get_or_add preserves that), and on packages loaded with duplicate media the first "
-    "of each class stays first because new relationships only ever target it",
-    "relationship collections are abstracted to (number n of rIdn, image target) pairs; removal of slides, shapes or "
-    "relationships is not part of the histories (an unreachable image part is neither indexed nor saved)",
+    "parts hold the same bytes (C15_invariant_kept: every history preserves that); on a package loaded with duplicate media "
+    "the first of each class stays first as long as it keeps a user; once removals take its last user away the walk order of "
+    "the implementation and the load order of the model could prefer different survivors (no corpus deck holds duplicate media)",
+    "relationship collections are abstracted to (number n of rIdn, identity of the image target) pairs; what the package "
+    "reaches is: the parts reached without following the relationships of a slide (a flag of the start state, computed by the "
+    "harness on the real graph; they stay reachable whatever happens to slides) plus the targets of the image relationships of "
+    "the listed slides; image relationships of a part below a slide (notes slide, chart, the legacy VML drawing of an OLE "
+    "object) are not representable: the histories on such a deck (one of the 15 corpus decks, shp-access-ole-object.pptx) are "
+    "judged by the oracle alone, the model is not compared; parts a slide reaches through other relationship "
+    "types are taken not to be named /ppt/media/image*",
     "the oracle reads DPI from PNG pHYs, JFIF APP0, BMP header and TIFF tags 282/283/296 only; for the generated files that is "
     "all the resolution information there is (no EXIF); sizes of corpus images are compared with the model only",
 ]
@@ -614,12 +634,63 @@ def twin_ops(rng, pair, nslides, ph_free):
     return out
 
 
+def churn_ops(rng, specs, slides, ph_free):
+    """Remove-then-re-add: an image gets two or three users, every one of them is removed again
+    (the slide is deleted, or each shape is deleted together with its relationship), other
+    images are added, and the first image is used again; sometimes with a save + re-open
+    somewhere in between.  Appends to slides / ph_free as it adds slides."""
+    out = []
+    uses = ["P", "P", "P", "M", "O"]
+    vias = ["path", "stream", "stream", "misnamed"]
+    a_img = rng.randrange(len(specs))
+    others = [i for i in range(len(specs)) if i != a_img] or [a_img]
+    by_slide = rng.random() < 0.6
+    if by_slide or not slides:
+        out.append(["a", 6])
+        slides.append(6)
+        ph_free.append(False)
+        s = len(slides) - 1
+        if rng.random() < 0.5 and len(slides) > 1:      # not always the last slide: move another one behind it
+            out.append(["a", 6])
+            slides.append(6)
+            ph_free.append(False)
+    else:
+        s = rng.randrange(len(slides))
+    maybe_r = lambda: out.append(["r"]) if rng.random() < 0.12 else None
+    for _ in range(rng.randint(2, 3)):
+        out.append(["i", s, a_img, rng.choice(uses), rng.choice(vias), None, None])
+    maybe_r()
+    if by_slide:
+        out.append(["x", s])
+        del slides[s]
+        del ph_free[s]
+        if not slides:
+            out.append(["a", 6])
+            slides.append(6)
+            ph_free.append(False)
+    else:
+        out.append(["D", s, rng.choice(["rel", "rel", "rel", "elem"])])
+    maybe_r()
+    for _ in range(rng.randint(1, 2)):
+        out.append(["i", rng.randrange(len(slides)), rng.choice(others), rng.choice(uses), rng.choice(vias), None, None])
+    maybe_r()
+    out.append(["i", rng.randrange(len(slides)), a_img, rng.choice(uses), rng.choice(vias), None, None])
+    if rng.random() < 0.5:
+        out.append(["i", rng.randrange(len(slides)), rng.choice(others), "P", "stream", None, 914400])
+    return out
+
+
 def gen_history(rng, tier, hid):
     """A history: image specs + operations.  ops:
        ["a", layout]                      add slide (layout 6 blank / 8 picture placeholder)
        ["o", s, k]                        k hyperlink relationships on slide s
        ["i", s, img, use, via, a, b]      use P(cx,cy) / H / M(ovie poster) / O(le icon); via path|stream|misnamed
-       ["r"]                              save and re-open """
+       ["r"]                              save and re-open
+       ["x", s]                           delete slide s: its p:sldId removed and prs.part.drop_rel(rId)
+       ["d", s, j, mode]                  delete the (j mod n)-th image-bearing shape of slide s; mode rel: every
+                                          relationship nothing in the slide refers to any more is dropped
+                                          (slide.part.drop_rel), mode elem: the element only
+       ["D", s, mode]                     the same for every image-bearing shape of slide s """
     nimg = rng.randint(1, 5)
     specs = [gen_image_spec(rng, hid * 100 + i) for i in range(nimg)]
     if rng.random() < 0.25:
@@ -640,16 +711,36 @@ def gen_history(rng, tier, hid):
     slides.append(ops[-1][1])
     ph_free.append(ops[-1][1] == 8)
     dims = [None, None, None, 0, 914400, 1828800, 653143, 12700, 1, 3, -914400, 5000000, 10 ** 8]
+    churn_at = rng.randint(2, n_ops) if rng.random() < 0.4 else None
     while len(ops) < n_ops:
         k = rng.random()
-        if k < 0.15 and len(slides) < 5:
+        if churn_at is not None and len(ops) >= churn_at:
+            ops += churn_ops(rng, specs, slides, ph_free)
+            churn_at = None
+        elif not slides or (k < 0.14 and len(slides) < 5):
             ops.append(["a", rng.choice([6, 8])])
             slides.append(ops[-1][1])
             ph_free.append(ops[-1][1] == 8)
-        elif k < 0.22:
+        elif k < 0.20:
             ops.append(["o", rng.randrange(len(slides)), rng.randint(1, 3)])
-        elif k < 0.32:
+        elif k < 0.29:
             ops.append(["r"])
+        elif k < 0.35:
+            s = rng.choice([0, len(slides) - 1, rng.randrange(len(slides))])    # first / last / any
+            if rng.random() < 0.04:
+                s = len(slides) + 1                                           # out of range: refused
+                ops.append(["x", s])
+            else:
+                ops.append(["x", s])
+                del slides[s]
+                del ph_free[s]
+        elif k < 0.45:
+            s = rng.randrange(len(slides))
+            mode = rng.choice(["rel", "rel", "elem"])
+            if rng.random() < 0.3:
+                ops.append(["D", s, mode])
+            else:
+                ops.append(["d", s, rng.randrange(6), mode])
         else:
             s = rng.randrange(len(slides))
             img = rng.randrange(len(specs)) if rng.random() < 0.7 else 0
@@ -669,6 +760,10 @@ def gen_history(rng, tier, hid):
                 if rng.random() < 0.4:
                     cx = cy = None
                 ops.append(["i", s, img, "P", via, cx, cy])
+    if not slides:
+        ops.append(["a", 6])
+        slides.append(6)
+        ph_free.append(False)
     if pair:
         ops += twin_ops(rng, pair, len(slides), ph_free)
     if rng.random() < 0.6:
@@ -682,8 +777,75 @@ def gen_history(rng, tier, hid):
     return {"specs": specs, "ops": ops, "slot": hid % 3}
 
 
+R_NS = "http://schemas.openxmlformats.org/officeDocument/2006/relationships"
+
+
+def static_reach(prs):
+    """(ids of the parts the package reaches without following the relationships OF a slide, ids of the
+    parts an image relationship met on that walk targets): what stays when every slide goes"""
+    from pptx.opc.constants import RELATIONSHIP_TYPE as RT
+
+    pkg = prs.part.package
+    slide_parts = {id(sl.part) for sl in prs.slides}
+    seen, img = set(), set()
+
+    def walk(rels):
+        for rel in rels.values():
+            if rel.is_external:
+                continue
+            part = rel.target_part
+            if rel.reltype == RT.IMAGE:
+                img.add(id(part))
+            if id(part) in seen:
+                continue
+            seen.add(id(part))
+            if id(part) not in slide_parts:
+                walk(part.rels)
+
+    walk(pkg._rels)
+    return seen, img
+
+
+def slide_image_targets(prs):
+    from pptx.opc.constants import RELATIONSHIP_TYPE as RT
+
+    out = set()
+    for sl in prs.slides:
+        for rel in sl.part.rels.values():
+            if not rel.is_external and rel.reltype == RT.IMAGE:
+                out.add(id(rel.target_part))
+    return out
+
+
+def representable(prs):
+    """every image part the look-up iterates is reached by an image relationship of an always-reachable
+    part or directly by one of a slide, and no part below a slide (notes slide, chart, legacy VML
+    drawing of an OLE object ...) has image relationships of its own: the model has no
+    slide -> sub-part -> image paths"""
+    from pptx.opc.constants import RELATIONSHIP_TYPE as RT
+
+    reach, img = static_reach(prs)
+    direct = slide_image_targets(prs)
+    if not all(id(p) in img or id(p) in direct for p in prs.part.package._image_parts):
+        return False
+    seen = set()
+    todo = [rel.target_part for sl in prs.slides for rel in sl.part.rels.values() if not rel.is_external]
+    while todo:
+        q = todo.pop()
+        if id(q) in seen or id(q) in reach:     # always-reachable furniture and the slides themselves
+            continue
+        seen.add(id(q))
+        for rel in q.rels.values():
+            if rel.is_external:
+                continue
+            if rel.reltype == RT.IMAGE:
+                return False
+            todo.append(rel.target_part)
+    return True
+
+
 def corpus_decks():
-    """decks under /repo that already contain image parts: (relative path, slides, image parts)"""
+    """decks under /repo that already contain image parts: (relative path, slides, image parts, representable in the model)"""
     import glob
 
     from pptx import Presentation
@@ -696,15 +858,16 @@ def corpus_decks():
                 prs = Presentation(f)
             n = len(list(prs.part.package._image_parts))
             if n:
-                out.append((os.path.relpath(f, REPO), len(prs.slides), n))
+                out.append((os.path.relpath(f, REPO), len(prs.slides), n, representable(prs)))
         except Exception:  # noqa
             continue
     return out
 
 
-def gen_corpus_history(rng, deck, nslides, nparts, hid):
+def gen_corpus_history(rng, deck, nslides, nparts, hid, representable=True):
     """on a deck that already holds images: add its own images again (must reuse the parts),
-    add new ones (must take the first free number), re-open, and again"""
+    add new ones (must take the first free number), delete a slide or the pictures of a slide (its own
+    images may lose their last user: added again they must be stored anew), re-open, and again"""
     specs = [{"fmt": "PART", "index": j} for j in range(nparts)]
     specs.append(gen_image_spec(rng, 900000 + hid * 10))
     specs.append(gen_image_spec(rng, 900001 + hid * 10))
@@ -723,12 +886,57 @@ def gen_corpus_history(rng, deck, nslides, nparts, hid):
                 ops[-1][5], ops[-1][6] = rng.choice(dims), rng.choice(dims)
         if pair:
             ops += twin_ops(rng, pair, ns, [])
+        if True:
+            r = rng.random()
+            if r < 0.45:
+                ops.append(["x", rng.choice([0, ns - 1, rng.randrange(ns)])])
+                ns -= 1
+                if ns == 0:
+                    ops.append(["a", 6])
+                    ns = 1
+            elif r < 0.7:
+                ops.append(["D", rng.randrange(ns), rng.choice(["rel", "rel", "elem"])])
+            elif r < 0.9:
+                ops.append(["d", rng.randrange(ns), rng.randrange(4), rng.choice(["rel", "rel", "elem"])])
+            if r < 0.9:   # its own images and a new one after the removal
+                for _ in range(rng.randint(1, 3)):
+                    ops.append(["i", rng.randrange(ns), rng.randrange(len(specs)), rng.choice(["P", "P", "M", "O"]),
+                                rng.choice(["path", "stream"]), None, None])
         if rnd == 0:
             ops.append(["r"])
             if rng.random() < 0.5:
                 ops.append(["a", 6])
                 ns += 1
-    return {"deck": deck, "specs": specs, "ops": ops, "slot": hid % 3}
+    hist = {"deck": deck, "specs": specs, "ops": ops, "slot": hid % 3}
+    if not representable:
+        hist["oracle_only"] = True    # removals on a deck with slide -> sub-part -> image paths: judged by the oracle alone
+    return hist
+
+
+def _rid_num(rid):
+    """n for a key of the form rIdn in canonical decimal, else 0"""
+    t = rid[3:]
+    return int(t) if rid.startswith("rId") and t.isdigit() and str(int(t)) == t else 0
+
+
+def _r_attr_values(el):
+    """the values of every attribute in the relationships namespace at or below el"""
+    pre = "{%s}" % R_NS
+    return [v for e in el.iter() if isinstance(e.tag, str) for k, v in e.attrib.items() if k.startswith(pre)]
+
+
+def image_shapes(slide):
+    """the top-level shapes of the slide that hold an embedded blip, in document order:
+    [(element, shape id, [blip elements])]"""
+    out = []
+    for child in slide.shapes._spTree:
+        if not isinstance(child.tag, str):
+            continue
+        blips = child.xpath(".//a:blip[@r:embed]")
+        if blips:
+            ids = child.xpath(".//p:cNvPr/@id")
+            out.append((child, ids[0] if ids else "?", blips))
+    return out
 
 
 class Deck:
@@ -748,6 +956,25 @@ class Deck:
         self.blobs = [self.part_blobs[s["index"] % len(self.part_blobs)] if s["fmt"] == "PART" else make_blob(s)
                       for s in hist["specs"]]
         self.init_slides = self._slides_text()
+        self.init_blob_count = {}
+        for b in self.part_blobs:
+            self.init_blob_count[b] = self.init_blob_count.get(b, 0) + 1
+        # what every picture must give back: per slide (same order as prs.slides) {(shape id, n-th blip): bytes};
+        # the pictures a deck already has are expected to keep the bytes they have now
+        self.expect = []
+        for sl in self.prs.slides:
+            exp = {}
+            for _, sid, blips in image_shapes(sl):
+                for j, blip in enumerate(blips):
+                    try:
+                        blob = sl.part.related_part(blip.get("{%s}embed" % R_NS)).blob
+                    except KeyError:
+                        continue
+                    exp[(sid, j)] = None if (sid, j) in exp else blob    # None: ambiguous key, not judged
+            self.expect.append(exp)
+        self.live_hits = []    # (signature, text) found by check_live
+        self.drops = {}        # op index -> rId numbers dropped by a d / D operation
+        self.first_removal = None
         self.nmovie = 0
         self.nlink = 0
         self.nfile = 0
@@ -761,10 +988,12 @@ class Deck:
 
         out = []
         n = len(self.hist["specs"])
+        reach, img = static_reach(self.prs)
         for j, p in enumerate(self.init_image_parts):
-            out.append("%s;%s;%d;%d;1" % (p.partname, p.content_type, n + j, isinstance(p, ImagePart)))
-        for p in self.init_other_parts:
-            out.append("%s;%s;~;%d;0" % (p.partname, p.content_type, isinstance(p, ImagePart)))
+            out.append("%s;%s;%d;%d;%d;%d" % (p.partname, p.content_type, n + j, isinstance(p, ImagePart),
+                                              id(p) in img, id(p) in reach))
+        for p in self.init_other_parts:   # furniture: only their names matter (taken to stay reachable)
+            out.append("%s;%s;~;%d;0;1" % (p.partname, p.content_type, isinstance(p, ImagePart)))
         return out
 
     def _slides_text(self):
@@ -774,7 +1003,7 @@ class Deck:
         for sl in self.prs.slides:
             rows = []
             for rid, rel in sl.part.rels.items():
-                num = int(rid[3:]) if rid.startswith("rId") and rid[3:].isdigit() and str(int(rid[3:])) == rid[3:] else 0
+                num = _rid_num(rid)
                 tgt = ""
                 if not rel.is_external and rel.reltype == RT.IMAGE:
                     tgt = str(rel.target_part.partname)
@@ -804,6 +1033,15 @@ class Deck:
         return self.prs.slides[s]
 
     def run_op(self, op, opidx=-1):
+        out = self._run_op(op, opidx)
+        if op[0] in ("i", "x", "d", "D", "r"):
+            try:
+                self.check_live("after operation %d %r" % (opidx, op[:4]))
+            except Exception as e:  # noqa
+                self.live_hits.append(("deck-unusable", "the deck cannot be walked after operation %d %r: %s" % (opidx, op[:4], exc_name(e))))
+        return out
+
+    def _run_op(self, op, opidx=-1):
         from pptx.opc.constants import RELATIONSHIP_TYPE as RT
 
         self.opidx = opidx
@@ -812,7 +1050,12 @@ class Deck:
             if k == "a":
                 lays = self.prs.slide_layouts
                 self.prs.slides.add_slide(lays[op[1] if op[1] < len(lays) else 0])
+                self.expect.append({})
                 return "ok:u"
+            if k == "x":
+                return self.delete_slide(op[1])
+            if k in ("d", "D"):
+                return self.delete_pictures(op)
             if k == "o":
                 sp = self.slide(op[1]).part
                 for _ in range(op[2]):
@@ -833,6 +1076,113 @@ class Deck:
             return "err:" + exc_name(e)
         return "badcase"
 
+    def store_names(self):
+        """what _ImageParts yields now (the answer of the model to a removal)"""
+        return "ok:" + ";".join(sorted(show(str(p.partname)) for p in self.prs.part.package._image_parts))
+
+    def delete_slide(self, s):
+        """the usual recipe: the presentation relationship is dropped and the p:sldId removed"""
+        if self.first_removal is None:
+            self.first_removal = self.opidx
+        sldIdLst = self.prs.slides._sldIdLst
+        sldId = sldIdLst.sldId_lst[s]
+        self.prs.part.drop_rel(sldId.rId)
+        sldIdLst.remove(sldId)
+        del self.expect[s]
+        return self.store_names()
+
+    def delete_pictures(self, op):
+        """remove image-bearing shapes of a slide; mode rel: afterwards every relationship the removed
+        elements used and nothing in the slide refers to any more is dropped (slide.part.drop_rel),
+        mode elem: the relationships stay (the parts stay reachable)"""
+        if self.first_removal is None:
+            self.first_removal = self.opidx
+        s, mode = op[1], op[-1]
+        sl = self.slide(s)
+        shapes = image_shapes(sl)
+        if op[0] == "d" and shapes:
+            shapes = [shapes[op[2] % len(shapes)]]
+        rids = []
+        for el, sid, blips in shapes:
+            for r in _r_attr_values(el):
+                if r not in rids:
+                    rids.append(r)
+            el.getparent().remove(el)
+            for key in [k_ for k_ in self.expect[s] if k_[0] == sid]:
+                del self.expect[s][key]
+        dropped = []
+        if mode == "rel":
+            left = set(_r_attr_values(sl.part._element))
+            for r in rids:
+                if r not in left and _rid_num(r) and r in sl.part.rels:
+                    sl.part.drop_rel(r)
+                    dropped.append(_rid_num(r))
+        self.drops[self.opidx] = dropped
+        return self.store_names() if dropped else "ok:u"
+
+    def check_live(self, when):
+        """The property on the object graph as it is now: every picture gives back the bytes it was made
+        from; no two parts the package reaches share a name; no byte string is held by more image parts
+        than the deck had of it when it was opened (one for anything added)."""
+        from pptx.parts.image import ImagePart
+
+        pkg = self.prs.part.package
+        slides = list(self.prs.slides)
+        hit = lambda sig, text: self.live_hits.append((sig, "%s (%s)" % (text, when)))
+        if len(slides) != len(self.expect):
+            hit("slide-count", "the deck has %d slides, %d expected" % (len(slides), len(self.expect)))
+            return
+        for si, sl in enumerate(slides):
+            exp = self.expect[si]
+            seen = set()
+            for _, sid, blips in image_shapes(sl):
+                for j, blip in enumerate(blips):
+                    seen.add((sid, j))
+                    want = exp.get((sid, j))
+                    if want is None:
+                        continue
+                    rid = blip.get("{%s}embed" % R_NS)
+                    try:
+                        try:
+                            got = sl.part.get_image(rid).blob      # what picture.image.blob returns
+                        except AttributeError:
+                            got = sl.part.related_part(rid).blob   # not an ImagePart (an image type without a class)
+                    except KeyError:
+                        hit("picture-relationship-missing", "slide %d shape %s refers to %s, which the slide does not have" % (si, sid, rid))
+                        continue
+                    if got != want:
+                        hit("picture-bytes-changed", "slide %d shape %s no longer gives back the bytes it was made from (%d bytes, "
+                            "now %d other bytes)" % (si, sid, len(want), len(got)))
+            for key in exp:
+                if key not in seen:
+                    hit("picture-lost", "slide %d shape %s is gone" % (si, key[0]))
+        names = [str(p.partname) for p in pkg.iter_parts()]
+        dup = sorted({n for n in names if names.count(n) > 1})
+        if dup:
+            hit("two-parts-one-name", "the package reaches more than one part named %s" % ", ".join(dup))
+        cnt = {}
+        for p in pkg._image_parts:
+            if isinstance(p, ImagePart):
+                cnt[p.blob] = cnt.get(p.blob, 0) + 1
+        for b, n in cnt.items():
+            if n > max(1, self.init_blob_count.get(b, 0)):
+                hit("same-bytes-two-parts", "%d reachable image parts hold the same %d bytes" % (n, len(b)))
+
+    def finish(self):
+        """final save, then the property once more on the re-opened file"""
+        from pptx import Presentation
+
+        self.store = self.final_store()
+        b = io.BytesIO()
+        self.prs.save(b)
+        self.saved.append(b.getvalue())
+        try:
+            self.prs = Presentation(io.BytesIO(b.getvalue()))
+        except Exception as e:  # noqa
+            self.live_hits.append(("saved-file-unreadable", "the saved file cannot be opened again: %s" % exc_name(e)))
+            return
+        self.check_live("after the final save + re-open")
+
     def image_op(self, op):
         _, s, img, use, via, a, b = op
         sl = self.slide(s)
@@ -841,6 +1191,7 @@ class Deck:
         self.records.append(rec)
         if use == "P":
             pic = sl.shapes.add_picture(arg, 0, 0, a, b)
+            shp = pic
             rid = pic._pic.blip_rId
             dims = (int(pic.width), int(pic.height))
             rec["blob_back"] = pic.image.blob
@@ -851,6 +1202,7 @@ class Deck:
             ph = [p for p in sl.placeholders if p.placeholder_format.type == 18 and hasattr(p, "insert_picture")][0]
             rec["view"] = (int(ph.width), int(ph.height))
             pp = ph.insert_picture(arg)
+            shp = pp
             rid = pp._pic.blip_rId
             sr = pp._pic.blipFill.srcRect
             g = (lambda n: int(sr.get(n, "0"))) if sr is not None else (lambda n: 0)
@@ -861,6 +1213,7 @@ class Deck:
             self.nmovie += 1
             mv = sl.shapes.add_movie(io.BytesIO(b"movie-%d" % self.nmovie), 0, 0, 914400, 914400,
                                      poster_frame_image=arg, mime_type="video/mp4")
+            shp = mv
             rid = mv._element.blip_rId
             dims = (0, 0)
         else:
@@ -868,11 +1221,13 @@ class Deck:
 
             self.nmovie += 1
             gf = sl.shapes.add_ole_object(io.BytesIO(b"ole-%d" % self.nmovie), PROG_ID.XLSX, 0, 0, icon_file=arg)
+            shp = gf
             rid = gf._element.xpath(".//a:blip/@r:embed")[0]
             dims = (0, 0)
+        self.expect[s][(str(shp.shape_id), 0)] = self.blobs[img]
         part = sl.part.related_part(rid)
         rec.update(ok=True, rid=rid, partname=str(part.partname), dims=dims)
-        num = int(rid[3:]) if rid.startswith("rId") and rid[3:].isdigit() else 0
+        num = _rid_num(rid)
         return "ok:%s;%d;%s;%s;%d;%d" % (show(str(part.partname)), num, show(part.ext), show(part.content_type),
                                           dims[0], dims[1])
 
@@ -916,6 +1271,14 @@ def model_case(hist, deck, initial, view_sizes):
             f.append("r")
         elif op[0] == "o":
             f.append("o;%d;%d" % (op[1], op[2]))
+        elif op[0] == "x":
+            f.append("x;%d" % op[1])
+        elif op[0] in ("d", "D"):
+            ks = deck.drops.get(oi)
+            if ks:
+                f += ["d;%d;%d" % (op[1], k) for k in ks]
+            else:
+                f.append("o;%d;0" % op[1])     # nothing dropped: the relationships are as they were
         else:
             _, s, img, use, via, a, b = op
             if use == "P":
@@ -932,27 +1295,35 @@ def model_case(hist, deck, initial, view_sizes):
     return f
 
 
-def fold_model_out(hist, line):
+def _sorted_names(o):
+    """a removal answers with the names the image relationships still lead to: order is not compared"""
+    if o.startswith("ok:") and o != "ok:u":
+        return "ok:" + ";".join(sorted(o[3:].split(";")))
+    return o
+
+
+def fold_model_out(hist, line, drops=None):
     """drop the model's outcomes of the helper o-steps that precede a movie/OLE image step;
     when the image step fails the implementation created no relationship at all only if the
-    failure precedes them -- see run_histories for how that case is handled"""
+    failure precedes them -- see run_histories for how that case is handled; a d / D operation
+    is as many model steps as relationships were dropped (the answer of the last one counts)"""
     parts = line.split("|")
     if len(parts) != 2:
         return None, line
     outs = parts[0].split(",") if parts[0] else []
     res = []
     i = 0
-    for op in hist["ops"]:
+    for oi, op in enumerate(hist["ops"]):
+        n = 1
         if op[0] == "i" and op[3] in ("M", "O"):
-            if i + 1 >= len(outs):
-                return None, line
-            res.append(outs[i + 1])
-            i += 2
-        else:
-            if i >= len(outs):
-                return None, line
-            res.append(outs[i])
-            i += 1
+            n = 2
+        elif op[0] in ("d", "D"):
+            n = max(1, len((drops or {}).get(oi) or []))
+        if i + n > len(outs):
+            return None, line
+        o = outs[i + n - 1]
+        res.append(_sorted_names(o) if op[0] in ("x", "d", "D") else o)
+        i += n
     return res, ",".join(sorted(parts[1].split(","))) if parts[1] else ""
 
 
@@ -967,31 +1338,42 @@ def oracle_history(ck, hist, deck, outs):
             used.setdefault(rec["img"], rec)
     info = {"entry_point": "SlideShapes.add_picture / insert_picture / add_movie / add_ole_object",
             "input": hist}
+    # -- after every step and after every save + re-open: each picture gives back its bytes, no two
+    #    reachable parts share a name, no bytes are held twice (Deck.check_live)
+    for sig, text in dict(deck.live_hits).items():
+        ck.violation(sig, text, info)
     # -- picture.image.blob == input ; same bytes -> same part ; different bytes -> different part
+    #    (over the whole history as long as nothing was removed: after a removal a name may be given
+    #    again and an image whose last user went is stored anew -- the live clauses above judge those)
+    upto = deck.first_removal if deck.first_removal is not None else len(hist["ops"])
     by_part = {}
     for rec in deck.records:
         if not rec["ok"]:
             continue
         if "blob_back" in rec and rec["blob_back"] != blobs[rec["img"]]:
             ck.violation("blob-differs", "picture.image.blob differs from the bytes given (image %d)" % rec["img"], info)
-        by_part.setdefault(rec["partname"], set()).add(blobs[rec["img"]])
+        if rec["opidx"] < upto:
+            by_part.setdefault(rec["partname"], set()).add(blobs[rec["img"]])
     for pn, bs in by_part.items():
         if len(bs) > 1:
             ck.violation("two-blobs-one-part", "part %s is used for %d different byte strings" % (pn, len(bs)), info)
     names_of = {}
     for rec in deck.records:
-        if rec["ok"]:
+        if rec["ok"] and rec["opidx"] < upto:
             names_of.setdefault(blobs[rec["img"]], set()).add(rec["partname"])
     for b, ns in names_of.items():
         if len(ns) > 1:
             ck.violation("same-bytes-two-parts", "the same bytes were stored under %s" % sorted(ns), info)
     # -- the saved zips
-    b = io.BytesIO()
-    deck.prs.save(b)
-    zips = deck.saved + [b.getvalue()]
+    zips = deck.saved
+    live_blobs = {b for exp in deck.expect for b in exp.values() if b is not None}
     for zi, zb in enumerate(zips):
         z = zipfile.ZipFile(io.BytesIO(zb))
-        members = [n for n in z.namelist() if n.startswith("ppt/media/image")]
+        allnames = z.namelist()
+        twice = sorted({n for n in allnames if allnames.count(n) > 1})
+        if twice:
+            ck.violation("duplicate-zip-member", "save #%d holds more than one member named %s" % (zi, ", ".join(twice)), info)
+        members = [n for n in allnames if n.startswith("ppt/media/image")]
         data = {n: z.read(n) for n in members}
         ctx = z.read("[Content_Types].xml").decode("utf-8")
         defaults = {m.group(1).lower(): m.group(2) for m in re.finditer(r'<Default Extension="([^"]*)" ContentType="([^"]*)"', ctx)}
@@ -1014,11 +1396,13 @@ def oracle_history(ck, hist, deck, outs):
                 ck.violation("wrong-type:" + kind, "a %s image is stored as %s with content type %s" % (kind, n, ct), info)
         if zi == len(zips) - 1:
             for img, rec in used.items():
+                if blobs[img] not in live_blobs:
+                    continue      # every user of it was removed: it need not be stored (at most once: duplicate-media)
                 cnt = sum(1 for d in data.values() if d == blobs[img])
                 if cnt != 1:
                     ck.violation("stored-not-once", "image %d (used on slide %d) is stored %d times in the saved file" % (
                         img, rec["slide"], cnt), info)
-                if "ppt/" + rec["partname"][5:] in data and data["ppt/" + rec["partname"][5:]] != blobs[img]:
+                if deck.first_removal is None and "ppt/" + rec["partname"][5:] in data and data["ppt/" + rec["partname"][5:]] != blobs[img]:
                     ck.violation("stored-bytes-differ", "member %s differs from the bytes given" % rec["partname"], info)
     # -- sizes
     for rec in deck.records:
@@ -1062,6 +1446,7 @@ def run_one_history(hist, tmp, pool=None):
     deck = Deck(hist, tmp, pool)
     initial = deck.initial_parts()
     outs = [deck.run_op(op, i) for i, op in enumerate(hist["ops"])]
+    deck.finish()
     views = {rec["opidx"]: rec["view"] for rec in deck.records if rec["use"] == "H" and "view" in rec}
     return deck, initial, outs, views
 
@@ -1137,30 +1522,32 @@ def run(ck, tier, rng):
     try:
         hists = [gen_history(rng, tier, i) for i in range(nh)]
         for rep in range(1 if tier == "quick" else 6):
-            for j, (deck, nslides, nparts) in enumerate(corpus_decks()):
-                hists.append(gen_corpus_history(rng, deck, nslides, nparts, rep * 100 + j))
+            for j, (deck, nslides, nparts, repres) in enumerate(corpus_decks()):
+                hists.append(gen_corpus_history(rng, deck, nslides, nparts, rep * 100 + j, repres))
         mcases = []
         keep = []
         for i, hist in enumerate(hists):
             sub = os.path.join(tmp, "h%d" % i)
             os.mkdir(sub)
             deck, initial, outs, views = run_one_history(hist, sub, pool)
-            klass = ("corpus:" if hist.get("deck") else "hist:") + "+".join(sorted({op[3] if op[0] == "i" else op[0] for op in hist["ops"]}))
+            klass = ("corpus-oracle-only:" if hist.get("oracle_only") else "corpus:" if hist.get("deck") else "hist:") + "+".join(sorted({op[3] if op[0] == "i" else op[0] for op in hist["ops"]}))
             ck.count(repr(hist), nontrivial_history(hist), klass)
             for rec in deck.records:
                 key = "img:%s:%s:%s" % (hist["specs"][rec["img"]]["fmt"], rec["use"], rec["via"])
                 ck.dist[key] = ck.dist.get(key, 0) + 1
             oracle_history(ck, hist, deck, outs)
             mcases.append(model_case(hist, deck, initial, views))
-            keep.append((hist, outs, deck.final_store()))
+            keep.append((hist, outs, deck.store, deck.drops))
             shutil.rmtree(sub, ignore_errors=True)
             if i < 3:
                 ck.sample(hist, limit=12)
         default_icon_case(ck)
         if ck.build.ok:
             mout = run_model("C15", mcases)
-            for (hist, outs, store), line in zip(keep, mout):
-                mres, mstore = fold_model_out(hist, line)
+            for (hist, outs, store, drops), line in zip(keep, mout):
+                mres, mstore = fold_model_out(hist, line, drops)
+                if hist.get("oracle_only"):
+                    continue
                 if mres != outs or mstore != store:
                     diffs += 1
                     if first is None:
@@ -1184,7 +1571,10 @@ def run(ck, tier, rng):
              "%d decks of 4-%d operations over 1-7 generated images (PNG/JPEG/GIF/BMP/TIFF, 1x1..64x48, DPI absent/fractional/0/"
              "huge/non-square, patched headers, rejected files) added by path (a pool of 3 reused working files per extension, overwritten before each use; 60%% of the histories add a "
              "same-length twin pair from the same path) / stream / misleading file name as picture, "
-             "placeholder picture, movie poster or OLE icon on up to 5 slides with save + re-open in between; non-trivial = a unit "
+             "placeholder picture, movie poster or OLE icon on up to 5 slides with save + re-open in between, slides deleted "
+             "(first / last / any; out of range), image-bearing shapes deleted with their relationships or as elements only, "
+             "40%% of the histories with a remove-then-re-add pattern; the corpus histories delete slides and pictures the decks "
+             "already have; non-trivial = a unit "
              "case the implementation accepts (binary64 validation cases excluded), a history with at least two image additions"
              % (nh, 14 if tier == "quick" else 24),
         trusted_base=TB, assumptions=ASSUME,
@@ -1241,21 +1631,21 @@ def replay(rec):
         c = _Ck()
         oracle_history(c, hist, deck, outs)
         line = run_model("C15", [model_case(hist, deck, initial, views)])[0]
-        mres, mstore = fold_model_out(hist, line)
+        mres, mstore = fold_model_out(hist, line, deck.drops)
         print("ops  ", hist["ops"])
         print("impl ", outs)
         print("model", mres)
-        print("store equal:", mstore == deck.final_store())
+        print("store equal:", mstore == deck.store)
         for s, w in c.hits:
             print("oracle:", s, "--", w)
-        return 0 if (mres == outs and mstore == deck.final_store() and not c.hits) else 1
+        return 0 if (mres == outs and mstore == deck.store and not c.hits) else 1
     finally:
         shutil.rmtree(tmp, ignore_errors=True)
 
 
 CLAIM = {
-    "tech": "Coq proof over a Gallina model of the image store (digest index, part-name and rId allocation, Pillow-format/extension/content-type tables, dpi normalisation, native size, scale) over all operation histories + tables and source rules regenerated by a translator each run + extracted-model correspondence on real decks + independent header-reading oracle on the saved zip",
-    "text": "31 theorems closed under the global context: for any history from any state meeting the invariant (unique names, unique digests among indexed image parts, class by content type) an added image ends up as exactly one indexed part with the reported name/extension/content type (C15_once, C15_same_part, C15_distinct, C15_bytes, C15_new_part, C15_preserved), re-opening is the identity on the store so the rebuilt digest index answers as before (C15_reopen), every extension Image.ext can return incl. emf has its content type as the unique Default row and maps to ImagePart (C15_tables over gen/GenC15.v, C15_tables_match, C15_rules_match, C15_emf_by_header), normalised dpi always in 1..2048 (C15_dpi), native size = floor(914400*px/dpi) also when evaluated in binary64 (C15_native, C15_native_float), a TIFF without XResolution sized at 72 dpi (C15_native_tiff_without_resolution), scale: none->native, both->unchanged, 0 is None, one given -> |cy*W-cx*H| <= |W|/2 + 3*2^-53*|cx*H| for any rounding with 2^-53 relative error and for the model's fl64 unconditionally (C15_scale, C15_fl64_premises, C15_scale_fl64). Tie: ~20k unit cases + 615 deck histories (quick) / ~210k + 5090 (thorough) of generated PNG/JPEG/GIF/BMP/TIFF/EMF/WMF images added as pictures, placeholder pictures, movie posters and OLE icons by path (reused, overwritten working files incl. same-byte-length twins)/stream/misleading name across slides with save/re-open, plus 15 corpus decks, compared with the extracted model (0 diffs); oracle on the saved zip: one member per distinct input, bytes identical, extension/content type of the sniffed format, default size from the file's own resolution, aspect within rounding.",
-    "note": "Pillow's report for a byte string (format, size, dpi entry, presence of tag 282) and SHA-1 are inputs/parameters of the model; CPython binary64 = fl64 is validated bit-exactly each run, not proved; save/load as identity on (name, bytes, content type) is C01; removal of slides/shapes/relationships is outside the histories; images beyond 1202440 px per side are outside C15_native_float. Two defects found by this check (TIFF without resolution sized at 1 dpi; EMF stored as .wmf/image/x-wmf) were fixed in parts/image.py and their oracle signatures stay active.",
+    "tech": "Coq proof over a Gallina model of the image store (part objects with identity, reachability through the relationships of the slides recomputed at every look-up, digest index, part-name and rId allocation, Pillow-format/extension/content-type tables, dpi normalisation, native size, scale) over all operation histories of additions, removals and re-openings + tables and source rules regenerated by a translator each run + extracted-model correspondence on real decks + independent oracle on the live objects after every step and on every saved zip",
+    "text": "35 theorems closed under the global context: for any history of additions, removals (slide deleted, relationship dropped) and re-openings from any state meeting the invariant (unique identities, unique names among the REACHABLE parts, unique digests among the indexed image parts, class by content type, relationships lead to existing objects: C15_invariant_kept) the look-up answers with a part the relationships lead to or with none (C15_lookup_reachable), an object nothing leads to is never reached again (C15_orphan_stays), a removal only takes relationships away (C15_removal), an added image some relationship still leads to is exactly one indexed part with the reported identity/name/extension/content type and the only reachable part of that name (C15_once, C15_same_part, C15_distinct, C15_bytes, C15_immutable, C15_once_step), a new part takes the first free number among the reachable parts (C15_new_part), removal-free histories lose nothing (C15_preserved), re-opening drops the unreachable objects and leaves store, index and every look-up as they were (C15_reopen), every extension Image.ext can return incl. emf has its content type as the unique Default row and maps to ImagePart (C15_tables over gen/GenC15.v, C15_tables_match, C15_rules_match, C15_emf_by_header), normalised dpi always in 1..2048 (C15_dpi), native size = floor(914400*px/dpi) also when evaluated in binary64 (C15_native, C15_native_float), a TIFF without XResolution sized at 72 dpi (C15_native_tiff_without_resolution), scale: none->native, both->unchanged, 0 is None, one given -> |cy*W-cx*H| <= |W|/2 + 3*2^-53*|cx*H| for any rounding with 2^-53 relative error and for the model's fl64 unconditionally (C15_scale, C15_fl64_premises, C15_scale_fl64). Tie: ~20k unit cases + 615 deck histories (quick) / ~210k + 5090 (thorough) of generated PNG/JPEG/GIF/BMP/TIFF/EMF/WMF images added as pictures, placeholder pictures, movie posters and OLE icons by path (reused, overwritten working files incl. same-byte-length twins)/stream/misleading name across slides with save/re-open, slide deletion, shape deletion with and without its relationships and remove-then-re-add patterns, plus 15 corpus decks, compared with the extracted model (0 diffs); oracle after every step and every save + re-open: each picture gives back its bytes, reachable part names and zip member names unique, no bytes held twice; on the saved zip: one member per distinct input in use, bytes identical, extension/content type of the sniffed format, default size from the file's own resolution, aspect within rounding.",
+    "note": "Pillow's report for a byte string (format, size, dpi entry, presence of tag 282) and SHA-1 are inputs/parameters of the model; CPython binary64 = fl64 is validated bit-exactly each run, not proved; save/load as identity on (name, bytes, content type) of the reachable parts is C01; the removals are performed by the harness with the documented calls; a deck in which a part below a slide (notes slide, chart, VML drawing) has image relationships of its own is outside the model (one corpus deck: judged by the oracle alone); images beyond 1202440 px per side are outside C15_native_float. Two defects found by this check (TIFF without resolution sized at 1 dpi; EMF stored as .wmf/image/x-wmf) were fixed in parts/image.py and their oracle signatures stay active.",
     "ref": "6/C15",
 }
